@@ -295,6 +295,12 @@ func (s *Server) serveOne(ctx context.Context, r io.Reader, w io.Writer, shmConn
 			}
 			s.logIPCWriteErr("error-response", req.Method,
 				writeErrorResponse(w, errSchema, pverr, s.serverID, req.RequestID, s.debugErrors))
+			if methodTypeString(info.Type) == DispatchMethodStream {
+				// Like every other error exit of a stream call: the client's
+				// input stream must not be left on the transport, where it
+				// would be read as the next request.
+				drainInputStream(r)
+			}
 			return nil
 		}
 	}
